@@ -55,6 +55,21 @@ def run(ctx):
         ctx, res, PROFILE, n_quick=32, n_thorough=1920, steps=150, steps_thorough=300,
         relevant=lambda t: t[0] == "nick",
         nontrivial_rule="")
+    # (c) the same contention below command granularity: simultaneous claims / renames with jitter in the lock-release
+    # windows (the storm workloads of C18 that concern nickname ownership)
+    from .. import storm
+    sjobs = [(binary, hooks, s, 2000 if hooks else 0, None, pw, 10 if ctx.quick else 80, ctx.quick, ["claim", "claim", "rename"])
+             for s, pw in zip(ctx.seeds(8, "claimstorm"), [None, None, None, None, None, "stormpw", "stormpw", None])]
+    with multiprocessing.Pool(8) as pool:
+        souts = pool.map(storm.worker, sjobs)
+    for o in souts:
+        res.evaluations += o["rounds"]
+        res.extra["claim_storm_rounds"] = res.extra.get("claim_storm_rounds", 0) + o["rounds"]
+        for sig, detail in o["findings"]:
+            res.findings.append(Finding("c02:" + sig, detail, {"engine": "storm"}))
+        if o["inconclusive"]:
+            res.inconclusive += 1
+            res.inconclusive_notes.append(o["inconclusive"])
     res.rule = ("(a) enumeration of command interleavings: 2-3 connections with scripts over {PASS good/bad, NICK x/y, USER, "
                 "CAP LS/END, speak-as-self, JOIN, rename, QUIT, close} contending for 1-2 nicknames, with and without a server "
                 "password; all interleavings of the script pairs (thorough) or a seeded sample of 40 per pair (quick); after "
